@@ -141,14 +141,19 @@ func main() {
 	engine.Main(&engine.Spec{
 		Prop:  "C15",
 		Level: "exploration",
-		Rule: "23 function bodies (arithmetic, locals assigned from calls, loops, break values, throws, catch/finally/defer, closures, collections, switch, runtime errors) x arguments 0..3 x wrappers {plain method, generator, async + await_sync, async awaited from async} x thread pools {(1,2),(2,2),(4,256)} for the async wrappers; plus 5 generator bodies with yields in loops / do-finally / closures x arguments 0..3 against a reference sequence; " +
+		Rule: "23 function bodies (arithmetic, locals assigned from calls, loops, break values, throws, catch/finally/defer, closures, collections, switch, runtime errors) x arguments 0..3 (thorough 0..6) x wrappers {plain method, generator, async + await_sync, async awaited from async} x thread pools {(1,2),(2,2),(4,256)} (thorough: 7 pool shapes) for the async wrappers; plus 5 generator bodies with yields in loops / do-finally / closures x arguments 0..3 against a reference sequence; " +
 			"oracle: all wrappers print the same trace and the same value or thrown value as the plain method; generators yield exactly the reference sequence; no Go panic; non-trivial = every (body, argument, wrapper, pool) tuple (enumerated without repetition)",
 		Assume: []string{"the schedule clause (any interleaving of tasks) is explored exhaustively by C16's scenarios; here pools run free and results must not depend on their size", "callee-first definition order"},
 		Setup:  func(c *engine.Ctx) { elkrun.Init() },
 		Run: func(c *engine.Ctx) {
 			pools := []poolCfg{{1, 2}, {2, 2}, {4, 256}}
+			maxN := 3
+			if c.Thorough {
+				pools = []poolCfg{{1, 2}, {1, 8}, {2, 2}, {2, 8}, {3, 3}, {4, 256}, {8, 2}}
+				maxN = 6
+			}
 			for _, b := range bodies {
-				for n := 0; n <= 3; n++ {
+				for n := 0; n <= maxN; n++ {
 					b, n := b, n
 					c.Case(fmt.Sprintf("body/%s/n=%d", b.name, n), func(r *engine.R) {
 						var ref string
@@ -200,7 +205,7 @@ func main() {
 				}
 			}
 			for _, g := range genSeqs {
-				for n := 0; n <= 3; n++ {
+				for n := 0; n <= maxN; n++ {
 					g, n := g, n
 					c.Case(fmt.Sprintf("genseq/%s/n=%d", g.name, n), func(r *engine.R) {
 						seq++
